@@ -1912,6 +1912,78 @@ pub(crate) mod __verif {
         kani::cover!(inner && negate && wr);
     }
 
+    static mut LA2_RESULT: bool = false;
+    fn oracle_inner_attempt2<'a, Input: InputIndexer, Dir: Direction>(
+        this: &mut MatchAttempter<'a, Input>, _inp: Input, _ip: IP, pos: Input::Position, _dir: Dir,
+    ) -> Option<Input::Position> where 'a: 'a {
+        assert!(this.bts.len() == 1);
+        unsafe {
+            if LA2_RESULT {
+                this.s.groups[1] = GroupData { start: Some(pos), end: Some(pos) };
+                Some(pos)
+            } else {
+                None
+            }
+        }
+    }
+
+    fn e6_small_body(negate: bool, inner: bool) {
+        let re = mk(vec![Insn::Goal], 0, 2, vec![]);
+        let input = Utf8Input::new("ab", false);
+        let mut m = MatchAttempter::<Utf8Input>::new(&re, input.left_end());
+        unsafe { LA2_RESULT = inner; }
+        let old = [
+            GroupData { start: any_opt_pos(&input, 2), end: any_opt_pos(&input, 2) },
+            GroupData { start: any_opt_pos(&input, 2), end: any_opt_pos(&input, 2) },
+        ];
+        m.s.groups[0] = old[0];
+        m.s.groups[1] = old[1];
+        let pos = input.left_end() + 1;
+        let r = m.run_lookaround::<Forward>(&input, 1, pos, 1, 2, negate);
+        assert!(r == (inner != negate), "lookaround succeeds iff (body matched) != negate");
+        assert!(m.s.groups[0].start == old[0].start && m.s.groups[0].end == old[0].end, "groups outside the body untouched");
+        if inner && !negate {
+            assert!(m.s.groups[1].start == Some(pos), "a positive lookaround keeps the body's captures");
+            let mut ip: IP = 0;
+            let mut p2 = pos;
+            let resumed = m.try_backtrack(&input, &mut ip, &mut p2, Forward::new());
+            assert!(!resumed && m.bts.len() == 1);
+        } else {
+            assert!(m.bts.len() == 1, "no record is left behind");
+        }
+        assert!(m.s.groups[1].start == old[1].start && m.s.groups[1].end == old[1].end, "captures of the body are restored (after backtracking past a kept positive lookaround, or immediately otherwise)");
+        core::mem::forget(m);
+        kani::cover!(true);
+    }
+
+    // @obligation name=e6_bt_lookaround_positive_match props=C01,C02 fn=classicalbacktrack::MatchAttempter::run_lookaround kind=bounded bound="2 groups, body owns group 1; inner attempt = oracle meeting try_at_pos's contract (succeeds, writes group 1); symbolic prior groups" min_checks=300 w=3 timeout=1500
+    // Positive lookaround whose body matches: returns true, keeps the body's captures, and backtracking past it restores the
+    // previous value of exactly those groups.
+    #[kani::proof]
+    #[kani::unwind(5)]
+    #[kani::stub(MatchAttempter::try_at_pos, oracle_inner_attempt2)]
+    fn e6_bt_lookaround_positive_match() {
+        e6_small_body(false, true);
+    }
+
+    // @obligation name=e6_bt_lookaround_negative_match props=C01,C02 fn=classicalbacktrack::MatchAttempter::run_lookaround kind=bounded bound="2 groups, body owns group 1; inner attempt succeeds and writes group 1; negate = true" min_checks=300 w=3 timeout=1500
+    // Negative lookaround whose body matches: returns false and the body's captures are discarded at once (atomic, no effect).
+    #[kani::proof]
+    #[kani::unwind(5)]
+    #[kani::stub(MatchAttempter::try_at_pos, oracle_inner_attempt2)]
+    fn e6_bt_lookaround_negative_match() {
+        e6_small_body(true, true);
+    }
+
+    // @obligation name=e6_bt_lookaround_body_fails props=C01,C02 fn=classicalbacktrack::MatchAttempter::run_lookaround kind=bounded bound="2 groups; inner attempt fails; negate symbolic" min_checks=300 w=3 timeout=1500
+    // Body fails: a positive lookaround fails, a negative one succeeds; groups and stack are exactly as before.
+    #[kani::proof]
+    #[kani::unwind(5)]
+    #[kani::stub(MatchAttempter::try_at_pos, oracle_inner_attempt2)]
+    fn e6_bt_lookaround_body_fails() {
+        e6_small_body(kani::any(), false);
+    }
+
     // =================================== E9: match construction ===================================
 
     // @obligation name=e9_bt_successful_match props=C06,C16,C02:t fn=classicalbacktrack::BacktrackExecutor::successful_match kind=bounded bound="3 capture groups with symbolic bounds on a 3-byte haystack" min_checks=300 w=2 timeout=900
